@@ -17,7 +17,7 @@ def run(ctx):
             else:
                 jobs += SL.job(b, name, v, pb, eb, shards=2 if ctx.tier == "quick" else 16)
     ctx.run_jobs(jobs, parallel=16)
-    cov = SL.coverage(ctx, "scenarios of 2-4 threads on one primitive (mutex: contenders, recursive owner, tryLock; semaphore: waiters/signalers with wait, tryWait, "
+    cov = SL.coverage(ctx, "scenarios of 2-4 threads on one primitive (mutex: contenders, recursive owner, tryLock, also on Mutex objects with static storage duration constructed before / after the library's own statics; semaphore: waiters/signalers with wait, tryWait, "
                            "timed wait; signal: waiters, setter, resetter, timed waits; monitor: waiter + set after lock, timed waiters, no set; thread: join result, "
                            "double start, destructor join, the same Thread object started again after join; timed-wait deadline arithmetic for start-nsec in {0, 999000000, 999999999} x timeout in {0,1,999,1000,"
                            "1001,2500} ms on Signal/Monitor/Semaphore); every schedule with <= %d preemptions and <= %d environment deviations (spurious condition "
